@@ -43,7 +43,7 @@ pub fn world_for(spec: &str) -> Option<Box<dyn World>> {
 
 /// what a reply looks like after RESP -> Lua -> RESP (the standard conversion): nil forms collapse,
 /// everything else is kept; `None` = don't care (integers a Lua 5.1 number cannot hold)
-fn conv(r: &R) -> Option<R> {
+pub fn conv(r: &R) -> Option<R> {
     Some(match r {
         R::Nil | R::NilArr => R::Nil,
         R::Int(i) => {
@@ -92,7 +92,7 @@ fn rel_bytes(bs: &[u8], epoch: u64) -> Bytes {
     out
 }
 
-fn rel(r: &R, epoch: u64) -> R {
+pub fn rel(r: &R, epoch: u64) -> R {
     match r {
         R::Bulk(bs) => R::Bulk(rel_bytes(bs, epoch)),
         R::Simple(bs) => R::Simple(rel_bytes(bs, epoch)),
@@ -111,7 +111,7 @@ fn rel(r: &R, epoch: u64) -> R {
 
 /// replies whose element order is not defined (sets, hashes, key listings, fields of a stream entry) are
 /// compared as multisets; replies of commands with random outcomes only by shape
-fn normalise(name: &str, r: &R) -> R {
+pub fn normalise(name: &str, r: &R) -> R {
     fn sort_arr(r: &R) -> R {
         match r {
             R::Arr(v) => {
@@ -228,7 +228,7 @@ fn run_once(w: &mut Box<dyn World>, hist: &[usize], cmd: &[Bytes], form: Option<
 
 /// the hook prints every stream id at or above the epoch relative to it; ids far away from the clock (explicit
 /// ids such as u64::MAX) are constants and must be compared as such
-fn absolute_far_ids(s: &str, epoch: u64) -> String {
+pub fn absolute_far_ids(s: &str, epoch: u64) -> String {
     if epoch == 0 || !s.contains("T+") {
         return s.to_string();
     }
@@ -429,7 +429,7 @@ fn differential(spec: &str, depth: usize, part: u64, parts: u64, forms: &[&str],
     json!({"recs": recs, "errors": errors, "cases": cases, "runs": runs, "nontrivial": nontrivial, "states": seen_states.len(), "outcomes": outcomes.into_iter().collect::<Vec<_>>()})
 }
 
-fn clip(s: &str) -> String {
+pub fn clip(s: &str) -> String {
     if s.len() > 600 {
         format!("{}...", &s[..600])
     } else {
